@@ -9,7 +9,6 @@ Variable key : Type.
 Variable keq : key -> key -> bool.
 Variable nanlike : key -> bool.
 Variable hash : key -> N.
-Hypothesis no_nan : forall k, nanlike k = false.
 
 Notation mkk := (mk key).
 Notation capm := (cap key).
@@ -18,51 +17,52 @@ Notation hs := (hstart key hash).
 Definition cellat (m : mkk) (p : nat) : cell key := nth p (cells m) Empty.
 Definition matches (k : key) (c : cell key) : bool := cell_is_key key keq c k.
 
-Lemma cell_eqk_matches : forall c k, cell_eqk key keq nanlike c k = matches k c.
-Proof. intros [| |k'] k; simpl; auto. Qed.
-
-(** the common skeleton of get and remove: the position of the matching cell *)
+(** the common skeleton of get and remove (current code, [fixed = true]): the position of
+    the matching cell *)
 Fixpoint find_loop (fuel : nat) (m : mkk) (k : key) (start i : nat) : option nat :=
   match fuel with
   | 0 => None
   | S fuel =>
-    let c := nth i (cells m) Empty in
-    if cell_eqk key keq nanlike c k then Some i
-    else match c with
-         | Empty => None
-         | _ => let i' := S i mod capm m in
-                if i' =? start then None else find_loop fuel m k start i'
-         end
+    let next := let i' := S i mod capm m in
+                if i' =? start then None else find_loop fuel m k start i' in
+    match nth i (cells m) Empty with
+    | Empty => None
+    | Tomb => next
+    | Key k' => if keq k k' then Some i else next
+    end
   end.
 
 Lemma get_loop_find : forall fuel m k s i,
-  get_loop key keq nanlike fuel m k s i = option_map (fun p => nth p (idx m) 0) (find_loop fuel m k s i).
+  get_loop key keq nanlike true fuel m k s i = option_map (fun p => nth p (idx m) 0) (find_loop fuel m k s i).
 Proof.
   induction fuel; intros; simpl; auto.
-  destruct (cell_eqk key keq nanlike (nth i (cells m) Empty) k); auto.
-  destruct (nth i (cells m) Empty); auto; destruct (_ =? s); auto.
+  destruct (nth i (cells m) Empty); auto.
+  - destruct (_ =? s); auto.
+  - destruct (keq k k0); auto. destruct (_ =? s); auto.
 Qed.
 
 Lemma rem_loop_find : forall fuel m k s i,
-  rem_loop key keq nanlike fuel m k s i =
+  rem_loop key keq nanlike true fuel m k s i =
   match find_loop fuel m k s i with
   | Some p => (MK (set_nth p Tomb (cells m)) (set_nth p 0 (idx m)) (len m - 1), Some (nth p (idx m) 0))
   | None => (m, None)
   end.
 Proof.
   induction fuel; intros; simpl; auto.
-  destruct (cell_eqk key keq nanlike (nth i (cells m) Empty) k); auto.
-  destruct (nth i (cells m) Empty); auto; destruct (_ =? s); auto.
+  destruct (nth i (cells m) Empty); auto.
+  - destruct (_ =? s); auto.
+  - destruct (keq k k0); auto. destruct (_ =? s); auto.
 Qed.
 
 Lemma find_loop_sound : forall fuel m k s i p,
   find_loop fuel m k s i = Some p -> matches k (cellat m p) = true.
 Proof.
   induction fuel; intros m k s i p H; simpl in H; try discriminate.
-  destruct (cell_eqk key keq nanlike (nth i (cells m) Empty) k) eqn:E.
-  - inversion H; subst. rewrite cell_eqk_matches in E. exact E.
-  - destruct (nth i (cells m) Empty); try discriminate;
-      destruct (_ =? s); try discriminate; eapply IHfuel; eauto.
+  destruct (nth i (cells m) Empty) eqn:E; try discriminate.
+  - destruct (_ =? s); try discriminate. eapply IHfuel; eauto.
+  - destruct (keq k k0) eqn:Ek.
+    + inversion H; subst. unfold matches, cellat. rewrite E. simpl. exact Ek.
+    + destruct (_ =? s); try discriminate. eapply IHfuel; eauto.
 Qed.
 
 (** when the search gives up, every cell probed up to an empty cell (or all of them) fails to match *)
@@ -77,23 +77,23 @@ Proof.
   induction fuel; intros m k s d c Hs Hd Hf H.
   - lia.
   - simpl in H. fold c in H.
-    destruct (cell_eqk key keq nanlike (nth (off c s d) (cells m) Empty) k) eqn:E; try discriminate.
-    rewrite cell_eqk_matches in E.
-    assert (E' : matches k (cellat m (off c s d)) = false) by exact E.
     assert (Hstep : S (off c s d) mod c = off c s (S d)) by (apply off_step; lia).
     assert (Hback : (off c s (S d) =? s) = (S d =? c)) by (apply off_back; lia).
+    assert (Hrec : matches k (cellat m (off c s d)) = false ->
+       (if S (off c s d) mod c =? s then None else find_loop fuel m k s (S (off c s d) mod c)) = None ->
+       exists t, d <= t /\ t <= c /\
+         (forall e, d <= e -> e < t -> matches k (cellat m (off c s e)) = false) /\
+         (t < c -> cellat m (off c s t) = Empty)).
+    { intros E' H'. rewrite Hstep, Hback in H'. destruct (Nat.eqb_spec (S d) c) as [Hc|Hc].
+      - exists c. repeat split; try lia. intros e He1 He2. assert (e = d) by lia. subst e. exact E'.
+      - destruct (IHfuel m k s (S d)) as [t [Ht1 [Ht2 [Ht3 Ht4]]]]; try lia; auto.
+        exists t. repeat split; try lia; auto.
+        intros e He1 He2. destruct (Nat.eq_dec e d) as [->|]; [exact E'|]. apply Ht3; lia. }
     destruct (nth (off c s d) (cells m) Empty) eqn:Ec.
     + exists d. repeat split; try lia. intros _. exact Ec.
-    + rewrite Hstep, Hback in H. destruct (Nat.eqb_spec (S d) c) as [Hc|Hc].
-      * exists c. repeat split; try lia. intros e He1 He2. assert (e = d) by lia. subst e. exact E'.
-      * destruct (IHfuel m k s (S d)) as [t [Ht1 [Ht2 [Ht3 Ht4]]]]; try lia; auto.
-        exists t. repeat split; try lia; auto.
-        intros e He1 He2. destruct (Nat.eq_dec e d) as [->|]; [exact E'|]. apply Ht3; lia.
-    + rewrite Hstep, Hback in H. destruct (Nat.eqb_spec (S d) c) as [Hc|Hc].
-      * exists c. repeat split; try lia. intros e He1 He2. assert (e = d) by lia. subst e. exact E'.
-      * destruct (IHfuel m k s (S d)) as [t [Ht1 [Ht2 [Ht3 Ht4]]]]; try lia; auto.
-        exists t. repeat split; try lia; auto.
-        intros e He1 He2. destruct (Nat.eq_dec e d) as [->|]; [exact E'|]. apply Ht3; lia.
+    + apply Hrec; auto. unfold matches, cellat. rewrite Ec. reflexivity.
+    + destruct (keq k k0) eqn:Ek; try discriminate.
+      apply Hrec; auto. unfold matches, cellat. rewrite Ec. simpl. exact Ek.
 Qed.
 
 (** the tombstone look-ahead of insert_impl, started [j] steps after the tombstone at [orig] *)
